@@ -94,6 +94,9 @@ pub struct HStats {
     pub panics_on_retry: usize,
     pub panics_with_guards: usize,
     pub panics_in_writer: usize,
+    pub panics_in_load: usize,
+    pub panics_in_harness: usize,
+    pub panicky_values: usize,
     pub dtor_ops: usize,
     pub quiesce_checks: usize,
     pub lin_checked: usize,
@@ -279,6 +282,7 @@ impl<S: Strat> Shared<S> {
     fn dtor_panic_in_load(&self, c: usize, lo: usize) {
         let tags = self.tags_from(c, lo);
         self.f5.lock().unwrap().extend(tags);
+        self.hs.lock().unwrap().panics_in_load += 1;
     }
 
     fn hs<R>(&self, f: impl FnOnce(&mut HStats) -> R) -> R {
@@ -1035,7 +1039,7 @@ impl<S: Strat> Local<S> {
 
     /// drop everything the thread still holds
     fn release_all(&mut self, sh: &Shared<S>) {
-        self.caches.clear();
+        guarded("cache drop", || self.caches.clear());
         while !self.guards.is_empty() {
             let k = self.guards.len() - 1;
             self.drop_guard(sh, k);
@@ -1060,12 +1064,14 @@ fn thread_main<S: Strat>(tid: usize, prog: &Program, sh: &Arc<Shared<S>>) {
         loc.recv(sh);
         // an injected destructor panic may fire wherever the harness itself releases a value
         guarded("harness step", || loc.step(sh, op));
-        take_injected();
+        if take_injected() {
+            sh.hs(|h| h.panics_in_harness += 1);
+        }
     }
     if tid == 0 {
         // the finalizer
         sh.stop.store(true, Ordering::Relaxed);
-        loc.caches.clear();
+        guarded("cache drop", || loc.caches.clear());
         loc.publish(sh);
         rt::wait_others_done();
         loc.recv(sh);
@@ -1129,7 +1135,7 @@ fn thread_main<S: Strat>(tid: usize, prog: &Program, sh: &Arc<Shared<S>>) {
         return;
     }
     // ordinary thread exit
-    loc.caches.clear();
+    guarded("cache drop", || loc.caches.clear());
     if spec.bequeath && !rt::aborted() {
         if let Some(v) = rt::release_view() {
             let mut gm = sh.mail_g[0].lock().unwrap();
@@ -1276,6 +1282,7 @@ fn run_case_s<S: Strat>(case: &Case, trace: bool) -> Outcome {
     let p = &case.prog;
     unsafe { verif::reset_nodes() };
     varc::arena_reset(p.reuse, case.spec.seed ^ 0x5eed);
+    varc::PANICKY_PCT.store(p.panicky as usize, Ordering::Relaxed);
     let nt = p.threads.len();
     {
         let mut st = rt::rt().m.lock().unwrap();
@@ -1425,6 +1432,8 @@ fn run_case_s<S: Strat>(case: &Case, trace: bool) -> Outcome {
         ids.dedup();
         hstats.distinct_ids_loaded = ids.len();
     }
+    hstats.panicky_values = varc::PANICKY_MADE.load(Ordering::Relaxed);
+    varc::PANICKY_PCT.store(0, Ordering::Relaxed);
     hstats.cross_thread_value = varc::CROSS_READ.load(Ordering::Relaxed);
     hstats.cross_thread_destroy = varc::CROSS_DESTROY.load(Ordering::Relaxed);
     let (objects, reused) = varc::arena_stats();
